@@ -104,7 +104,7 @@ def handshake_scenario(rng, rank):
         sc.close()
 
 
-def scenario(rng, rank, stalls=False, flood=0):
+def scenario(rng, rank, stalls=False, flood=0, starve=False):
     # the adversarial per-tick order is switched on after the handshake (under it the 27-segment
     # initial transfer rarely survives the Unhandled/Packet race, which is not C07's subject)
     sc = EngineScenario(rng, rank="stable" if rank == "seeded" else rank, on_event=_suspending_handler)
@@ -164,6 +164,27 @@ def scenario(rng, rank, stalls=False, flood=0):
             s.inject(frame(sid, cid, b"STATP\x01\x03\xf2\x00\x02"), delay=0.0003 * flood + 0.001)
             s.inject(frame(sid, cid, b"RFERR"), delay=0.0003 * flood + 0.002)
             s.advance(flood * 0.32 + 8.0)
+        pending = []
+        if starve:
+            # a request whose answers are all lost while traffic that is not for this client keeps coming, several
+            # datagrams per poll: the request still runs out of attempts in its own time (nothing that arrives
+            # re-arms it), and returns
+            from geckolib.config import GeckoConfig
+            sid, cid = sc.spa.descriptor.identifier, sc.spa.client_id
+            s.quiesce(5)
+            s.net.s2c = lambda data, now, n: []
+            t_call = sc.start_call(sc.apis()[0][1])
+            foreign = [frame(sid, b"IOSsomeone-else", b"WCGET\x01"), b"<PACKT>no tags at all</PACKT>", frame(sid, cid, b"XYZZY\x01"),
+                       frame(b"SPA99:99:99:99:99:99", cid, b"WCGET\x02")]
+            budget = GeckoConfig.PROTOCOL_RETRY_COUNT * (GeckoConfig.PROTOCOL_TIMEOUT_IN_SECONDS + GeckoConfig.PAUSE_BETWEEN_RETRIES_IN_SECONDS)
+            t0 = s.loop.time()
+            while s.loop.time() - t0 < budget + 20 and not t_call.done():
+                s.inject(rng.choice(foreign))
+                s.advance(0.08)
+            s.net.s2c = None
+            s.advance(2.0)
+            if not t_call.done():
+                pending.append(t_call.get_name())
         # final phase: RF errors (they take the connection out of CONNECTED) followed by more traffic
         if rng.random() < 0.5:
             sid, cid = sc.spa.descriptor.identifier, sc.spa.client_id
@@ -175,7 +196,7 @@ def scenario(rng, rank, stalls=False, flood=0):
         sc.ev.extend(extra)
         ev = merge(sc)
         puts = sum(1 for e in sc.tap.log if e["k"] == "put" and e["by"] != "SPA:Packet handler") - puts0
-        return {"ev": ev, "rank": rank, "n": len(ev), "delivered": delivered[0], "puts": puts, "flood": flood}
+        return {"ev": ev, "rank": rank, "n": len(ev), "delivered": delivered[0], "puts": puts, "flood": flood, "pending": pending}
     finally:
         for t in sc.tasks:
             if not t.done():
@@ -243,11 +264,14 @@ def run(ctx):
     for i in range(n):
         # every third scenario runs on an event loop that occasionally stalls (logged, see TStall)
         logs.append(scenario(rng, ["stable", "perm", "reverse", "seeded"][i % 4], stalls=(i % 3 == 2),
-                             flood=(rng.choice([70, 100]) if i % 8 == 4 else 0)))
+                             flood=(rng.choice([70, 100]) if i % 8 == 4 else 0), starve=(i % 8 == 6)))
     for lg in logs:
         if lg["delivered"] != lg["puts"]:
             ctx.violation({"clause": "received-datagram-never-entered-the-queue"},
                           {"rank": lg["rank"], "delivered_to_endpoint": lg["delivered"], "entered_the_queue": lg["puts"], "flood": lg["flood"]})
+        if lg.get("pending"):
+            ctx.violation({"clause": "request-kept-waiting-by-traffic-that-is-not-for-this-client"},
+                          {"rank": lg["rank"], "pending": lg["pending"], "tail": lg["ev"][-10:]})
     ev.cov["flood_scenarios"] = sum(1 for lg in logs if lg["flood"])
     # junk during the handshake, under the stable wake orders (the adversarial per-tick order is not used
     # before the connection exists, see above)
